@@ -4,6 +4,7 @@
 #include <pika/runtime/thread_pool_helpers.hpp>
 #include <pika/threading_base/scheduler_mode.hpp>
 #include <pika/threading_base/thread_num_tss.hpp>
+#include <pika/synchronization/event.hpp>
 
 namespace ex = rt::ex;
 static const int NT = 8;
@@ -107,6 +108,57 @@ static void pu_prog()
     pmc_outcome("k=%d ctl=%d b2b=%d", k, from_ctl_task, back_to_back);
 }
 
+// a task that was created on worker k's queue is blocked (suspended on an event) while worker k is
+// suspended and resumed; it is released only after the resume.  The suspend call must return all the same,
+// the other worker keeps completing tasks, the blocked task completes after its release.
+static void pu_blocked_prog()
+{
+    static Ledger L;
+    L = Ledger{};
+    g = &L;
+    int k = pmc_choose(2, 0);
+    int from_ctl_task = pmc_choose(2, 0);
+    pmc_on_stuck(on_stuck);
+    rt::config c;
+    c.workers = 3;
+    c.rp_callback = &pools<true>;
+    rt::start(c);
+    watch_states();
+    auto& ev = *new pika::experimental::event;
+    static int about_to_block;
+    about_to_block = 0;
+    auto script = [&, k] {
+        auto& pool = pika::resource::get_thread_pool("default");
+        ex::execute(ex::with_hint(ex::thread_pool_scheduler{&pool}, pika::execution::thread_schedule_hint(k)), [&] {
+            ++g->entered[6];
+            about_to_block = 1;
+            ev.wait();
+            ++g->left[6];
+        });
+        int guard = 0;
+        while (!about_to_block && ++guard < 400) { if (pika::threads::detail::get_self_ptr()) pika::this_thread::yield(); else sched_yield(); }
+        L.phase = 1;
+        pool.suspend_processing_unit_direct(k);
+        ++L.calls_returned;
+        submit(1, 1 - k);    // the remaining worker keeps completing work
+        L.phase = 2;
+        pool.resume_processing_unit_direct(k);
+        ++L.calls_returned;
+        L.phase = 3;
+        ev.set();
+        submit(2, k);
+        ++L.finished;
+    };
+    if (from_ctl_task) ex::execute(ex::thread_pool_scheduler{&pika::resource::get_thread_pool("ctl")}, script);
+    else script();
+    L.phase = 4;
+    rt::stop();
+    PMC_ASSERT(L.finished == 1 && L.calls_returned == 2, "call-did-not-return", "script finished %d, calls returned %d", L.finished, L.calls_returned);
+    PMC_ASSERT(L.entered[6] == 1 && L.left[6] == 1, "task-lost", "the task blocked across suspend/resume of PU %d: entered %d, completed %d", k, L.entered[6], L.left[6]);
+    for (int i = 1; i <= 2; ++i) PMC_ASSERT(L.entered[i] == 1 && L.left[i] == 1, "task-lost", "task %d: entered %d, completed %d", i, L.entered[i], L.left[i]);
+    pmc_outcome("k=%d ctl=%d", k, from_ctl_task);
+}
+
 // whole pool
 static void pool_prog()
 {
@@ -196,9 +248,10 @@ int main(int argc, char** argv)
     static const char* sites = "scheduler_base::(suspend|resume|select_active_pu)|suspend_processing_unit|resume_processing_unit|suspend_internal|resume_internal|::suspend_direct|::resume_direct";
     static const char* focus = "F-addr: the per-worker state words (running/pre_sleep/sleeping) of the pool's scheduler; F-site (stores, rmw, cas): scheduler_base suspend/resume/select_active_pu, (suspend|resume)_processing_unit_*, pool suspend/resume; the pthread mutex/condition variables of sleeping workers are always scheduling decisions";
     static const pmc_spec specs[] = {
-        {"pu_suspend_resume", pu_prog, 1, 2, 0.5, 0.5, 1, focus, sites, "src"},
-        {"pool_suspend_resume", pool_prog, 1, 2, 0.3, 0.3, 1, focus, sites, "src"},
-        {"refused", refused_prog, 1, 1, 0.2, 0.2, 1, focus, sites, "src"},
+        {"pu_suspend_resume", pu_prog, 1, 2, 0.4, 0.4, 1, focus, sites, "src"},
+        {"pool_suspend_resume", pool_prog, 1, 2, 0.25, 0.25, 1, focus, sites, "src"},
+        {"pu_suspend_with_blocked_task", pu_blocked_prog, 1, 2, 0.2, 0.2, 1, focus, sites, "src"},
+        {"refused", refused_prog, 1, 1, 0.15, 0.15, 1, focus, sites, "src"},
     };
     static const char* assumptions[] = {"sequentially consistent interleavings only", "default pool with 2 workers (local-priority-fifo, elasticity) + 1-worker control pool", "at most 2 non-canonical successor choices at blocking points per execution (besides the deviation bound)"};
     pmc_config cfg{};
